@@ -151,7 +151,7 @@ Proof.
   intros Hh Hr [Hr0 Hnw]. unfold dec_granule, trim_first, trim_tracked, wrap32.
   rewrite !Z.shiftl_mul_pow2, !Z.shiftr_div_pow2 by lia.
   destruct Hh as [-> | ->]; [change (2 ^ 0) with 1|change (2 ^ 1) with 2];
-    destruct (k_eof b); cbn [andb]; ifs; cbn; lia.
+    destruct (k_eof b), (k_pcm b); cbn [andb]; ifs; cbn; lia.
 Qed.
 
 (* for ARBITRARY granule positions (also "negative" ones, where the int
@@ -165,7 +165,59 @@ Proof.
   intros Hh Hr Hlo. unfold dec_granule, trim_first, trim_tracked, wrap32.
   rewrite !Z.shiftl_mul_pow2, !Z.shiftr_div_pow2 by lia.
   destruct Hh as [-> | ->]; [change (2 ^ 0) with 1|change (2 ^ 1) with 2];
-    destruct (k_eof b); cbn [andb]; ifs; cbn; lia.
+    destruct (k_eof b), (k_pcm b); cbn [andb]; ifs; cbn; lia.
+Qed.
+
+(* since the clamp is applied before the addition, for ARBITRARY granule
+   positions the trimmed range stays inside what blockin produced *)
+Lemma granule_range_all h gran0 count1 stp b r cu :
+  (h = 0 \/ h = 1) -> r <= cu ->
+  let '(g, r', cu') := dec_granule h gran0 count1 stp b r cu in
+  r <= r' /\ r' <= cu' /\ cu' <= cu.
+Proof.
+  intros Hh Hr. unfold dec_granule, trim_first, trim_tracked.
+  rewrite !Z.shiftl_mul_pow2, !Z.shiftr_div_pow2 by lia.
+  destruct Hh as [-> | ->]; [change (2 ^ 0) with 1|change (2 ^ 1) with 2];
+    destruct (k_eof b), (k_pcm b); cbn [andb]; ifs; cbn; lia.
+Qed.
+
+Lemma blockin_returned_range_all c s b s' :
+  (hs c = 0 \/ hs c = 1) -> SizesOK c -> k_pcm b = true ->
+  dec_blockin c s b = (0, s') ->
+  let prevC := if d_centerW s =? 0 then half c true else 0 in
+  let thisC := if d_centerW s =? 0 then 0 else half c true in
+  if d_ret s =? -1 then d_ret s' = thisC /\ d_cur s' = thisC
+  else prevC <= d_ret s' /\ d_ret s' <= d_cur s' /\
+       d_cur s' <= prevC + Z.shiftr (bsz c (d_W s) / 4 + bsz c (k_W b) / 4) (hs c).
+Proof.
+  intros Hh HS Hp E. cbv zeta. unfold dec_blockin in E.
+  destruct ((d_cur s >? d_ret s) && negb (d_ret s =? -1)); [inversion E|].
+  unfold dec_pcmpart in E. rewrite Hp in E. fold (half c true) in E.
+  set (stp := bsz c (d_W s) / 4 + bsz c (k_W b) / 4) in *.
+  assert (0 <= Z.shiftr stp (hs c)) as Hst.
+  { apply Z.shiftr_nonneg. unfold stp.
+    destruct HS as (P0 & P1 & _). unfold half, bsz in *.
+    assert (0 <= bs0 c /\ 0 <= bs1 c) as [B0 B1].
+    { split.
+      - destruct (Z.neg_nonneg_cases (bs0 c)) as [N|N]; [|exact N].
+        exfalso. rewrite Z.shiftr_div_pow2 in P0 by lia.
+        assert (0 < 2 ^ (hs c + 1)) by (apply Z.pow_pos_nonneg; lia).
+        assert (bs0 c / 2 ^ (hs c + 1) < 0) by (apply Z.div_lt_upper_bound; lia). lia.
+      - destruct (Z.neg_nonneg_cases (bs1 c)) as [N|N]; [|exact N].
+        exfalso. rewrite !Z.shiftr_div_pow2 in * by lia.
+        assert (0 < 2 ^ (hs c + 1)) by (apply Z.pow_pos_nonneg; lia).
+        assert (bs1 c / 2 ^ (hs c + 1) < 0) by (apply Z.div_lt_upper_bound; lia). lia. }
+    destruct (d_W s), (k_W b); lia. }
+  destruct (d_ret s =? -1) eqn:Er.
+  - match type of E with context [dec_granule ?h ?g ?c1 ?st ?bb ?r ?cu] =>
+      pose proof (granule_range_all h g c1 st bb r cu Hh (Z.le_refl _)) as G;
+      destruct (dec_granule h g c1 st bb r cu) as [[g' r'] cu'] end.
+    injection E as <-. cbn. unfold half, bsz in *. destruct (d_centerW s =? 0); lia.
+  - match type of E with context [dec_granule ?h ?g ?c1 ?st ?bb ?r ?cu] =>
+      assert (r <= cu) as Hle by lia;
+      pose proof (granule_range_all h g c1 st bb r cu Hh Hle) as G;
+      destruct (dec_granule h g c1 st bb r cu) as [[g' r'] cu'] end.
+    injection E as <-. cbn. unfold half, bsz in *. destruct (d_centerW s =? 0); lia.
 Qed.
 
 Definition count_after (c : cfg) (s : dec) (b : dblock) : Z :=
@@ -227,6 +279,7 @@ Qed.
 Definition AfterBlockin (c : cfg) (s : dec) : Prop :=
   let n1 := half c true in
   let prevC := if d_centerW s =? 0 then 0 else n1 in       (* centerW = 0 <-> this block's centre half is the upper one *)
+  d_fresh s = true /\
   (d_centerW s = 0 \/ d_centerW s = n1) /\
   prevC <= d_ret s /\ d_ret s <= d_cur s /\
   d_cur s <= prevC + half c (d_lW s) / 2 + half c (d_W s) / 2.
@@ -249,7 +302,7 @@ Lemma lapout_contiguous c s buf :
   (forall j, 0 <= j < pending -> buf' (d_ret s' + j) = buf (d_ret s + j)) /\
   (forall j, 0 <= j < n -> buf' (d_ret s' + pending + j) = buf (thisC + j)).
 Proof.
-  intros (P0 & P1 & Ev0 & Ev1) (Hc & Hr1 & Hr2 & Hr3). cbv zeta. intros Hfull.
+  intros (P0 & P1 & Ev0 & Ev1) (Hfr & Hc & Hr1 & Hr2 & Hr3). cbv zeta. intros Hfull.
   unfold dec_lapout, lapout_buf, bsz.
   change (Z.shiftr (bs0 c) (hs c + 1)) with (half c false).
   change (Z.shiftr (bs1 c) (hs c + 1)) with (half c true).
@@ -258,6 +311,7 @@ Proof.
   assert (half c (d_W s) = if d_W s then half c true else half c false) as HW by (destruct (d_W s); reflexivity).
   rewrite HlW, HW in *. clear HlW HW.
   generalize dependent (half c true). generalize dependent (half c false). intros n0 P0 Ev0 n1 P1 Ev1 Hc Hr1 Hr3 Hfull.
+  rewrite Hfr. cbn [negb orb]. rewrite orb_false_r.
   destruct (d_ret s <? 0) eqn:Eneg; [destruct (d_centerW s =? 0); lia|].
   destruct Hc as [Hc | Hc]; rewrite Hc in *.
   - change (0 =? 0) with true in *. cbv iota in *.
